@@ -633,10 +633,10 @@ func str(w string) cf.T {
 func nodeTerm(fields [][2]interface{}, arrays [][2]interface{}) cf.T {
 	var fs, as []cf.T
 	for _, f := range fields {
-		fs = append(fs, cf.Pair(str(f[0].(string)), cf.ListOf(f[1].([]string), str)))
+		fs = append(fs, cf.App("fld", str(f[0].(string)), cf.ListOf(f[1].([]string), str)))
 	}
 	for _, a := range arrays {
-		as = append(as, cf.Pair(str(a[0].(string)), cf.List(a[1].([]cf.T))))
+		as = append(as, cf.App("arr", str(a[0].(string)), cf.List(a[1].([]cf.T))))
 	}
 	return cf.App("Node", cf.List(fs), cf.List(as))
 }
@@ -778,7 +778,7 @@ func exec(in In) vh.Result {
 			if e < 0 {
 				nSub++
 			}
-			forest = append(forest, cf.Tuple(cf.Z(int64(id.Value())), zs(as), cf.Z(e)))
+			forest = append(forest, cf.App("fent", cf.Z(int64(id.Value())), zs(as), cf.Z(e)))
 		}
 		_ = it.Close()
 		_ = rd.Close()
@@ -802,7 +802,7 @@ func exec(in In) vh.Result {
 				res = fail(err)
 				return
 			}
-			present = append(present, cf.Pair(cf.Int(i), cf.Bool(doc != nil)))
+			present = append(present, cf.App("pres", cf.Int(i), cf.Bool(doc != nil)))
 		}
 		var qobs []cf.T
 		differ, anyHit := false, false
